@@ -113,9 +113,15 @@ func NewJITCompilerWithConfig(hotPathThreshold int, recompileWindow time.Duratio
 func (jit *JITCompiler) CompileRoute(name string, route *ast.Route) ([]byte, error) {
 	startTime := time.Now()
 
-	// Check if we have a cached compiled unit
+	// Check if we have a cached compiled unit. The unit's fields are rewritten
+	// by recompileRoute and RecordExecution under unitsMux, so they are read
+	// under the lock too and judged on a snapshot.
 	jit.unitsMux.RLock()
 	unit, exists := jit.units[name]
+	var snapshot CompilationUnit
+	if exists {
+		snapshot = *unit
+	}
 	jit.unitsMux.RUnlock()
 
 	if exists {
@@ -125,11 +131,11 @@ func (jit *JITCompiler) CompileRoute(name string, route *ast.Route) ([]byte, err
 		jit.statsMux.Unlock()
 
 		// Check if we should recompile to a higher tier
-		if jit.shouldRecompile(unit) {
+		if jit.shouldRecompile(&snapshot) {
 			return jit.recompileRoute(name, route, unit)
 		}
 
-		return unit.Bytecode, nil
+		return snapshot.Bytecode, nil
 	}
 
 	// Cache miss - compile for the first time
@@ -233,7 +239,10 @@ func (jit *JITCompiler) recompileRoute(name string, route *ast.Route, currentUni
 	startTime := time.Now()
 
 	// Determine next tier
-	nextTier := jit.getNextTier(currentUnit.Tier)
+	jit.unitsMux.RLock()
+	currentTier := currentUnit.Tier
+	jit.unitsMux.RUnlock()
+	nextTier := jit.getNextTier(currentTier)
 
 	// Compile with new tier
 	bytecode, err := jit.compileWithTier(route, nextTier)
@@ -442,7 +451,11 @@ func (jit *JITCompiler) CheckAdaptiveRecompilation(name string, route *ast.Route
 		return false, nil
 	}
 
-	trigger := jit.recompileTrigger.ShouldRecompile(name, unit.Tier)
+	jit.unitsMux.RLock()
+	currentTier := unit.Tier
+	jit.unitsMux.RUnlock()
+
+	trigger := jit.recompileTrigger.ShouldRecompile(name, currentTier)
 	if !trigger.ShouldRecompile {
 		return false, nil
 	}
@@ -469,7 +482,9 @@ func (jit *JITCompiler) RecordDeoptimization(routeName string, reason string, ty
 
 	var fromTier OptimizationTier
 	if exists {
+		jit.unitsMux.RLock()
 		fromTier = unit.Tier
+		jit.unitsMux.RUnlock()
 	}
 
 	record := DeoptimizationRecord{
